@@ -39,8 +39,10 @@ type phCall struct {
 		FF [][]int `json:"ff"`
 		AF [][]int `json:"af"`
 	} `json:"cfg"`
-	Acc bool  `json:"acc"`
-	Out phOut `json:"out"`
+	Acc     bool  `json:"acc"`
+	Variant int   `json:"variant"` // 2: the same function names bound to other implementations (outputs are tagged)
+	Extra   bool  `json:"extra"`   // a second Config (other functions, accessor mode) is passed as well: only the first counts
+	Out     phOut `json:"out"`
 }
 type phCase struct {
 	Fam    string   `json:"fam"`
@@ -69,14 +71,20 @@ func phConfig(k *phCall, log *callLog) (*jsonpath.Config, bool) {
 	all := modelConfig(log, false)
 	_ = all
 	cfg := jsonpath.Config{}
+	tag := func(name string) string {
+		if k.Variant == 2 {
+			return name + "#v2"
+		}
+		return name
+	}
 	for _, n := range k.Cfg.FF {
 		name := cps(n)
-		cfg.SetFilterFunction(name, func(v interface{}) (interface{}, error) { return []interface{}{name, v}, nil })
+		cfg.SetFilterFunction(name, func(v interface{}) (interface{}, error) { return []interface{}{tag(name), v}, nil })
 	}
 	for _, n := range k.Cfg.AF {
 		name := cps(n)
 		cfg.SetAggregateFunction(name, func(vs []interface{}) (interface{}, error) {
-			return append([]interface{}{name}, append([]interface{}{}, vs...)...), nil
+			return append([]interface{}{tag(name)}, append([]interface{}{}, vs...)...), nil
 		})
 	}
 	if k.Acc {
@@ -89,6 +97,23 @@ func phConfig(k *phCall, log *callLog) (*jsonpath.Config, bool) {
 func phSignature(k *phCall, probes []MV) (sig string, f evalFn, o observed) {
 	cfg, has := phConfig(k, nil)
 	text := cps(k.S)
+	parse := func() parsed { return safeParse(text, cfg) }
+	if k.Extra && cfg != nil {
+		// Parse(path, config, another): only the first Config counts, and it must not be written to
+		other := jsonpath.Config{}
+		other.SetFilterFunction("f9", func(v interface{}) (interface{}, error) { return "f9", nil })
+		other.SetAggregateFunction("g9", func(v []interface{}) (interface{}, error) { return "g9", nil })
+		other.SetAccessorMode()
+		parse = func() (p parsed) {
+			defer func() {
+				if r := recover(); r != nil {
+					p.Panic = r
+				}
+			}()
+			p.F, p.Err = jsonpath.Parse(text, *cfg, other)
+			return
+		}
+	}
 	o = observeParse(text, cfg)
 	if o.Shape != "" {
 		return "SHAPE:" + o.Shape, nil, o
@@ -96,7 +121,10 @@ func phSignature(k *phCall, probes []MV) (sig string, f evalFn, o observed) {
 	if o.Cls != "ok" {
 		return "ERR:" + o.Msg, nil, o
 	}
-	pr := safeParse(text, cfg)
+	pr := parse()
+	if pr.Err != nil || pr.Panic != nil {
+		return fmt.Sprintf("ERR(with a second Config): %v %v", pr.Err, pr.Panic), nil, o
+	}
 	// the Config object is modified after Parse: the function must not notice
 	if has {
 		for _, n := range k.Cfg.FF {
@@ -220,8 +248,8 @@ func (w *worker) runPHist(c *phCase, raw []byte) {
 			}
 		case "ok":
 			for pi, p := range want.Probes {
-				if !p.Det {
-					continue
+				if !p.Det || k.Variant == 2 {
+					continue // variant implementations are not in the model; the fresh-process comparison covers them
 				}
 				r := safeCall(f, c.Probes[pi].ToGo(Mode{}))
 				okr := r.Panic == nil
